@@ -166,7 +166,7 @@ class State:
 
 
 class SymEx:
-    def __init__(self, low, mode='REAL', unit_roundoff=None, summaries=None, summary_for=None):
+    def __init__(self, low, mode='REAL', unit_roundoff=None, summaries=None, summary_for=None, const_floor=None):
         self.low = low
         self.mode = mode
         self.u = unit_roundoff
@@ -184,6 +184,10 @@ class SymEx:
         self.depth = 0
         self.roundings = 0
         self.reads_undef = []
+        # constant audit: constants of a floating type whose rank is below const_floor take the value they have in that type
+        # (literal rounding, constant folding, casts); everything else is exact.  Comparing such a run with the exact one shows
+        # whether a constant is computed in a type narrower than the result it flows into.
+        self.const_floor = const_floor
         self.intermediates = []
         self.float_to_int = []     # floating values converted to an integer type (truncation)
         self.narrowings = []      # (to, from) of every precision-losing cast of a non-constant value
@@ -199,6 +203,8 @@ class SymEx:
         self.domain.append((lor(lnot(g), cond) if g != TRUE else cond, text))
 
     # ------------------------------------------------------------ symbols
+    FRANK = {'float': 0, 'double': 1, 'long double': 2}
+
     def fresh(self, base):
         self.nsym += 1
         n = '%s!%d' % (base, self.nsym)
@@ -525,6 +531,8 @@ class SymEx:
                 return TRUE if v else FALSE
             if self.mode in ('NOISY', 'LIT') and e[1][0] == 'f':
                 return num(self.rnd(Fraction(v), e[1]))     # the value the literal has in its own type
+            if self.const_floor is not None and e[1][0] == 'f' and self.FRANK[e[1][1]] < self.const_floor:
+                return num(self.rnd(Fraction(v), e[1]))
             return num(v)
         if k in ('var', 'field', 'index', 'pidx', 'deref'):
             p = self.lval(e, env, st)
@@ -559,6 +567,8 @@ class SymEx:
                     # result it flows into (judged by SymCall against the result type of the function under contract)
                     self.narrowings.append((t[1], src0[1]))
                 if self.mode == 'LIT' and is_num(a):
+                    return num(self.rnd(a[1], t))
+                if self.const_floor is not None and is_num(a) and self.FRANK[t[1]] < self.const_floor:
                     return num(self.rnd(a[1], t))
                 if self.mode == 'NOISY':
                     if is_num(a):
@@ -689,6 +699,8 @@ class SymEx:
                     raise Unsupported('symbolic integer division')
                 self.need(cmp('!=', b, num(0)), 'divisor non-zero')
             r = mk(op, a, b)
+            if self.const_floor is not None and t[0] == 'f' and is_num(r) and self.FRANK[t[1]] < self.const_floor:
+                r = num(self.rnd(r[1], t))        # constant sub-expression evaluated in a type below the floor
             if t[0] == 'f' and not is_num(r):
                 self.intermediates.append(r)      # every non-constant floating result, in evaluation order (range analysis)
             if self.mode == 'NOISY' and t[0] == 'f':
